@@ -9,5 +9,5 @@ CONSTANTS
   OverSat = 3
   AllReach = FALSE
   XBits = 10
-INVARIANTS FnMetricLemmas FnClosestLemmas
+INVARIANTS FnClosestLemmas
 CHECK_DEADLOCK FALSE
